@@ -342,3 +342,45 @@ PROPS['C01'] = {
                    'Block-level composition (tables, arrays of items, generic records): pending obligations.',
     'assumptions': BLK_ASSUME,
 }
+
+
+# ------------------------------------------------------------------------------------------ C20 no shared mutable state
+FP_UNITS = [('enc.cpp', ['CDNS_VERIF_ENCODER_BUFFER_SIZE=9']), ('dec.cpp', ['CDNS_VERIF_DECODER_BUFFER_SIZE=2', 'DEC_MAXIN=5']), ('blk.cpp', ['BLK_MAXM=2']),
+            ('tbl.cpp', []), ('wr.cpp', []), ('rend.cpp', []), ('ts.cpp', [])]
+FP_ALLOWED_EXT = (r'_Z.*|__cxa_.*|__gxx_personality_v0|__verif_.*|nondet_.*|__vs_.*|__clang_call_terminate|'      # C++ runtime, harness API
+                  r'inet_ntop|strlen|toupper|rename|write|close|fstat|deflateInit2_|deflate|deflateEnd|lzma_easy_encoder|lzma_code|lzma_end|'   # re-entrant libc / zlib / liblzma calls on caller-owned state
+                  r'memcpy|memset|memmove|memcmp|strcmp')
+
+
+def fp_obl(name, harness, entry, defines=(), unwind=14, unwindset=(), redirect=(), vcall=(), opt='-O1', timeout=900, tiers=('quick', 'thorough')):
+    return Obl('fp_' + name, harness, 'noctor:' + entry, unwind=unwind, unwindset=unwindset, defines=defines, redirect=redirect, vcall=vcall, opt=opt, timeout=timeout,
+               footprint=True, witness=False, tiers=tiers,
+               desc='footprint: every store / memcpy / memset destination reached from this entry point is checked (for all inputs of the harness) not to alias a library-owned mutable global',
+               bounds={'as in the functional obligation for the same entry': True}, functions=['all functions reachable from ' + entry])
+
+
+PROPS['C20'] = {
+    'translation_validation': False,
+    'obligations': [
+        Obl('inventory', 'enc.cpp', 'inventory', kind='inventory', desc='library-owned mutable globals of every unit == {OpCodesDefault, RrTypesDefault} (written only by their dynamic initialisers); every external function called is on the re-entrant allow-list',
+            bounds={'units': FP_UNITS, 'allowed_globals': ['_ZN4CDNSL14OpCodesDefaultE', '_ZN4CDNSL14RrTypesDefaultE'], 'allowed_externals_re': FP_ALLOWED_EXT}, functions=['all of U1-U9']),
+        fp_obl('enc_bytestring', 'enc.cpp', 'h_enc_bytestring', defines=['CDNS_VERIF_ENCODER_BUFFER_SIZE=9', 'ENC_MAXSTR=11'], unwind=13, unwindset={r'^__v_mem(cpy|move|set)\.': 10, r'CdnsEncoder16write_(byte|text)string': 4}),
+        fp_obl('enc_i64', 'enc.cpp', 'h_enc_i64', defines=['CDNS_VERIF_ENCODER_BUFFER_SIZE=9'], unwind=11),
+        fp_obl('dec_integer', 'dec.cpp', 'h_dec_integer', defines=['CDNS_VERIF_DECODER_BUFFER_SIZE=2', 'DEC_MAXIN=6'], unwind=8, unwindset={r'read_to_buffer': 3, r'CdnsDecoder\d+(read_|skip_)': 9, r'prim_op|ref_head': 9, r'__v_mem': 17}, redirect=SKIP_REDIRECT),
+        fp_obl('dec_skip_any', 'dec.cpp', 'h_dec_skip_any', defines=['CDNS_VERIF_DECODER_BUFFER_SIZE=1', 'DEC_MAXIN=5'], unwind=7, unwindset={r'read_to_buffer': 2, r'ref_head': 9, r'__v_mem': 17, r'skip_item__contract': 4}, redirect=SKIP_REDIRECT, timeout=1500),
+        fp_obl('w_queryresponse', 'blk.cpp', 'h_w_queryresponse', defines=['BLK_MAXM=2'], unwind=24, redirect=BLK_REDIRECT, opt='-O1 -fno-inline'),
+        fp_obl('w_storageparameters', 'blk.cpp', 'h_w_storageparameters', defines=['BLK_MAXM=2'], unwind=24, redirect=BLK_REDIRECT, opt='-O1 -fno-inline'),
+        fp_obl('r_rr', 'blk.cpp', 'h_r_rr', defines=['BLK_MAXM=3'], unwind=24, unwindset={r'4readERNS_11CdnsDecoderE|10read_arrayE': 5}, redirect=BLK_REDIRECT, opt='-O1 -fno-inline'),
+        fp_obl('tbl_rr', 'tbl.cpp', 'h_tbl_rr', unwind=8, unwindset=TBL_US),
+        fp_obl('wr_named', 'wr.cpp', 'h_wr_named_nofault', unwind=14),
+        fp_obl('gz_write', 'wr.cpp', 'h_gz_write', unwind=8, vcall=GZ_VCALL),
+        fp_obl('rend_dname', 'rend.cpp', 'h_rend_dname', unwind=13),
+        fp_obl('rend_ip', 'rend.cpp', 'h_rend_ip', unwind=13),
+    ],
+    'explanation': 'C20 is decided through the sufficient condition its statement names - the library keeps no shared mutable state. (i) inventory: the set of library-owned mutable globals and of external functions called is '
+                   'recomputed from the IR of every unit on every run and compared with an allow-list; (ii) footprint: for a representative entry point of every unit CBMC decides, for all inputs of the harness, that no store, '
+                   'memcpy or memset outside the dynamic initialisers can alias one of these globals. Schedules are NOT solver variables (CBMC 6.11 refuses threads + pointers); the step from "no shared mutable state" to '
+                   '"every schedule gives the sequential result" is the data-race-freedom argument, stated as outside the solver verdict.',
+    'assumptions': ['thread schedules are not explored; data-race freedom from disjoint footprints is an argument, not a solver verdict', 'zlib / liblzma / libc functions on the allow-list are re-entrant on caller-owned state (their documentation)',
+                    'std::cerr use in destructor error paths is outside (iostreams are thread-safe at character level)'],
+}
